@@ -97,10 +97,10 @@ func c06Grammar(res *explore.Result, g *gram.Grammar, inputs [][]byte, verbose b
 				if m, ok := nlMap[ch]; ok {
 					ch = m
 				}
-				failed[attempt{strconv.Quote(string(rune(ch))), int(pos) - 1}] = true
+				failed[attempt{strconv.Quote(string(rune(ch))), int(pos) - impl.Base}] = true
 			case gram.Any, gram.Choice:
 				if gv.Named {
-					failed[attempt{"alt" + strconv.Itoa(e.ID), int(pos) - 1}] = true
+					failed[attempt{"alt" + strconv.Itoa(e.ID), int(pos) - impl.Base}] = true
 				}
 			}
 		}
@@ -109,7 +109,7 @@ func c06Grammar(res *explore.Result, g *gram.Grammar, inputs [][]byte, verbose b
 		rootP := parser.Func(func(ctx *parsley.Context, l data.IntMap, pos parsley.Pos) (parsley.Node, data.IntSet, parsley.Error) {
 			node, cp, err := b.NT[0].Parse(ctx, l, pos)
 			for _, a := range impl.Alternatives(node) {
-				rootEnds = append(rootEnds, int(a.ReaderPos())-1)
+				rootEnds = append(rootEnds, int(a.ReaderPos())-impl.Base)
 			}
 			return node, cp, err
 		})
@@ -122,7 +122,7 @@ func c06Grammar(res *explore.Result, g *gram.Grammar, inputs [][]byte, verbose b
 			}
 			w := mapInput(w0)
 			n := len(w)
-			c := Case{Grammar: gs, Input: string(w0)}
+			c := Case{Placement: impl.Placement, Grammar: gs, Input: string(w0)}
 			for k := range failed {
 				delete(failed, k)
 			}
@@ -231,7 +231,7 @@ func describeFailed(failed map[attempt]bool, pos int) string {
 
 func c06Run(env *explore.Env) *explore.Result {
 	res := explore.NewResult()
-	eachGrammar(env, res, c06Specs(env.Tier), c04Seeds, func(g *gram.Grammar, inputs [][]byte, _ bool) {
+	eachGrammarPlaced(env, res, c06Specs(env.Tier), c04Seeds, func(g *gram.Grammar, inputs [][]byte, _ bool) {
 		c06Grammar(res, g, inputs, false)
 	})
 	return res
